@@ -79,6 +79,12 @@ prop("C10", True, "model_checking",
      "Trusted: Rust std's lossy decoders as the reference; the reference framing procedure shared with C05.",
      "DESIGN.md 3/C10", E1)
 
+prop("C11", True, "model_checking",
+     "exhaustive enumeration of record sequences per section against an independent table-driven interpreter, through every decoder reading the section",
+     "For each of the six sections every sequence of up to k records over (key x value class) alphabets (plus unknown, indented, lower-case and colon-less lines) is decoded by every decoder that reads that section and compared field by field with a table-driven interpreter written from the statement.",
+     "Trusted: the reference interpreter (key tables, conversions, limits, clamps, precedence); Rust std's number grammar; value classes limited to the menus.",
+     "DESIGN.md 3/C11", E1)
+
 NOT_BUILT_REASON = "check not built yet in this session (planned, see DESIGN.md section 3); not claimed until it exists"
 
 def main():
